@@ -1,5 +1,5 @@
 """Which units exist, and what each claimed property covers / does not cover (copied into evidence)."""
-UNITS = ['budget', 'scalars']
+UNITS = ['budget', 'scalars', 'events']
 
 GLOBAL_ASSUMPTIONS = [
     'Verus 0.2026.09.13 and its bundled Z3 are sound; the extractor rewrite rules R0..R17 preserve meaning (DESIGN.md 3.2)',
@@ -46,6 +46,27 @@ PROPS = {
         ],
         assumptions=['str::trim / strip_prefix / starts_with / slicing behave as their shim contracts say (contracts/str.shim.rs)'],
     ),
+    'C04': dict(
+        covered=[
+            'MA::skip_one_node (FirstWins discards the later value): on Ok the cursor advanced by exactly the length of the first node of the remaining events, for any node shape and any stream length; nothing else of the map-access state changes',
+            'skip_one_node_len / one_entry_map_spans equal the node-length spec and stay in bounds',
+            'KeyNode::fingerprint / take_fingerprint: a scalar key is fingerprinted by its text and tag (style, anchor, location blind); the unreachable!() needs and gets the representation invariant',
+            'ReplayEvents implements the Events cursor contract (events replayed in order, peek never moves)',
+        ],
+        not_covered=['the policy match in MA::next_key_seed itself (Error / FirstWins / LastWins dispatch) and serde-side overwriting', 'HashSet<KeyFingerprint> lookup (derived Hash/Eq assumed lawful)'],
+        assumptions=['event buffers and streams shorter than 2^31 events (i32 depth counters; stated as preconditions)'],
+    ),
+    'C03': dict(
+        covered=['is_merge_key: exactly an untagged plain scalar `<<` standing alone (quoted or tagged `<<` is an ordinary key)',
+                 'KeyNode accessors used by merge expansion'],
+        not_covered=['merge expansion order (pending_entries_*, collect_entries_from_map) and the flush in MA::next_key_seed - planned'],
+        assumptions=[],
+    ),
+    'C16': dict(
+        covered=['Ev::location, KeyNode::location; ReplayEvents::reference_location = override, else current event, else last; last_location'],
+        not_covered=['parser mark consistency; LiveEvents (planned)'],
+        assumptions=[],
+    ),
     'C08': dict(covered=['budget counters bound the number of observed events/nodes (BudgetEnforcer::observe accept_only_within_limits)'],
                 not_covered=['heap bytes (no allocator model)'], assumptions=[]),
 }
@@ -60,14 +81,14 @@ NOT_APPLICABLE = {
     'C15': 'thread-local state, RAII restoration and unwinding through visitors: not modelled by Verus (no Drop/thread_local) nor Kani (no unwinding)',
     'C18': 'optional features not built by the baseline; oracle is the validation crates; path_map uses HashMap iteration and closure-heavy iterator chains outside Verus',
     'C02': 'not yet under contract in this revision (unit live planned, DESIGN.md 4)',
-    'C03': 'not yet under contract in this revision (unit events planned)',
-    'C04': 'not yet under contract in this revision (unit events planned)',
+    #'C03': 'not yet under contract in this revision (unit events planned)',
+    #'C04': 'not yet under contract in this revision (unit events planned)',
     'C05': 'not yet under contract in this revision (unit cursor planned)',
     'C09': 'not yet under contract in this revision (unit reader planned)',
     'C10': 'not yet under contract in this revision (units reader/live planned)',
     'C11': 'not yet under contract in this revision (unit live planned)',
     'C12': 'not yet under contract in this revision (unit quoting planned)',
-    'C16': 'not yet under contract in this revision (unit location planned)',
+    #'C16': 'not yet under contract in this revision (unit location planned)',
     'C17': 'not yet under contract in this revision (unit snippet planned)',
     'C19': 'not yet under contract in this revision (unit robotics planned)',
     'C20': 'not yet under contract in this revision (unit quoting planned)',
